@@ -9,8 +9,10 @@ import (
 	"go/parser"
 	"go/printer"
 	"go/token"
+	"math/big"
 	"os"
 	"path/filepath"
+	"regexp"
 	"strconv"
 	"strings"
 )
@@ -769,6 +771,1193 @@ func tidyFacts(repo string) {
 	footer("TidyFacts", ty, tu, tuu)
 }
 
+// ---------------------------------------------------------------- conditions in numeric form
+
+// A condition is rendered in disjunctive normal form, `List (List (Bool × Nat × Nat × Nat))`:
+// outer list = operands of `||`, inner list = operands of `&&`, atom = (negated, lhs code,
+// operator code, rhs code). Operator codes: opN (0:>= 1:> 2:<= 3:< 4:== 5:!=) and 8 for a bare
+// boolean operand (rhs 0). Operand codes: from the caller's table (source text -> code);
+// the integer literal n (0 <= n < 1000) is 1000+n, the literal -n is 2000+n.
+type atomT struct {
+	neg          bool
+	lhs, op, rhs int
+}
+
+func operandCode(e ast.Expr, codes map[string]int, what string) int {
+	e = unparen(e)
+	if n, ok := numLit(e); ok && n.exp >= 0 {
+		neg := n.neg
+		n.neg = false
+		v, err := strconv.Atoi(n.natVal(what))
+		if err == nil && v < 1000 {
+			if neg {
+				return 2000 + v
+			}
+			return 1000 + v
+		}
+	}
+	if c, ok := codes[src(e)]; ok {
+		return c
+	}
+	die("%s: unknown operand %s", what, src(e))
+	return 0
+}
+
+func atomOf(e ast.Expr, codes map[string]int, what string) atomT {
+	e = unparen(e)
+	neg := false
+	for {
+		u, ok := e.(*ast.UnaryExpr)
+		if !ok || u.Op != token.NOT {
+			break
+		}
+		neg = !neg
+		e = unparen(u.X)
+	}
+	if be, ok := e.(*ast.BinaryExpr); ok {
+		if o := opN(be.Op); o <= 5 {
+			return atomT{neg, operandCode(be.X, codes, what), o, operandCode(be.Y, codes, what)}
+		}
+		die("%s: operator %s inside an atom (%s)", what, be.Op, src(e))
+	}
+	return atomT{neg, operandCode(e, codes, what), 8, 0}
+}
+
+func dnf(e ast.Expr, codes map[string]int, what string) [][]atomT {
+	var ors []ast.Expr
+	var splitOr func(e ast.Expr)
+	splitOr = func(e ast.Expr) {
+		e = unparen(e)
+		if be, ok := e.(*ast.BinaryExpr); ok && be.Op == token.LOR {
+			splitOr(be.X)
+			splitOr(be.Y)
+			return
+		}
+		ors = append(ors, e)
+	}
+	splitOr(e)
+	var out [][]atomT
+	for _, o := range ors {
+		var ands []atomT
+		var splitAnd func(e ast.Expr)
+		splitAnd = func(e ast.Expr) {
+			e = unparen(e)
+			if be, ok := e.(*ast.BinaryExpr); ok && be.Op == token.LAND {
+				splitAnd(be.X)
+				splitAnd(be.Y)
+				return
+			}
+			ands = append(ands, atomOf(e, codes, what))
+		}
+		splitAnd(o)
+		out = append(out, ands)
+	}
+	return out
+}
+
+func leanDNF(d [][]atomT) string {
+	var ors []string
+	for _, c := range d {
+		var as []string
+		for _, a := range c {
+			as = append(as, fmt.Sprintf("(%v, %d, %d, %d)", a.neg, a.lhs, a.op, a.rhs))
+		}
+		ors = append(ors, joinS(as))
+	}
+	return joinS(ors)
+}
+
+func emitCond(name, doc string, e ast.Expr, codes map[string]int) {
+	pf("/-- %s; source: `%s` -/\n", doc, strings.Join(strings.Fields(src(e)), " "))
+	pf("def %s : List (List (Bool × Nat × Nat × Nat)) := %s\n", name, leanDNF(dnf(e, codes, name)))
+}
+
+func codeDoc(codes map[string]int) string {
+	inv := map[int]string{}
+	max := 0
+	for k, v := range codes {
+		inv[v] = k
+		if v > max {
+			max = v
+		}
+	}
+	var l []string
+	for i := 0; i <= max; i++ {
+		if k, ok := inv[i]; ok {
+			l = append(l, fmt.Sprintf("%d:%s", i, k))
+		}
+	}
+	return strings.Join(l, " ")
+}
+
+// varInit returns the initialiser of a package-level `var name = <expr>` / `const`.
+func varInit(f *ast.File, name string) ast.Expr {
+	for _, d := range f.Decls {
+		gd, ok := d.(*ast.GenDecl)
+		if !ok {
+			continue
+		}
+		for _, sp := range gd.Specs {
+			vs, ok := sp.(*ast.ValueSpec)
+			if !ok {
+				continue
+			}
+			for i, n := range vs.Names {
+				if n.Name == name && i < len(vs.Values) {
+					return vs.Values[i]
+				}
+			}
+		}
+	}
+	die("package-level %s not found", name)
+	return nil
+}
+
+// firstIf finds the first `if` (in source order) in body whose condition satisfies pred.
+func firstIf(body ast.Node, pred func(cond string) bool) *ast.IfStmt {
+	var found *ast.IfStmt
+	ast.Inspect(body, func(n ast.Node) bool {
+		if found != nil {
+			return false
+		}
+		if x, ok := n.(*ast.IfStmt); ok && pred(src(x.Cond)) {
+			found = x
+			return false
+		}
+		return true
+	})
+	return found
+}
+
+func mustIf(body ast.Node, what string, pred func(cond string) bool) *ast.IfStmt {
+	x := firstIf(body, pred)
+	if x == nil {
+		die("%s: if statement not found", what)
+	}
+	return x
+}
+
+// ---------------------------------------------------------------- C11: internal/stats/utest.go
+
+func utestFacts(repo string) {
+	f := parseFile(repo, "internal/stats/utest.go")
+	mw := funcDecl(f, "MannWhitneyUTest")
+	lm := funcDecl(f, "labeledMerge")
+	lim := mustNum(varInit(f, "MannWhitneyExactLimit"), "MannWhitneyExactLimit")
+	tlim := mustNum(varInit(f, "MannWhitneyTiesExactLimit"), "MannWhitneyTiesExactLimit")
+	codes := map[string]int{"hasTies": 0, "n1": 1, "n2": 2, "MannWhitneyExactLimit": 3, "MannWhitneyTiesExactLimit": 4,
+		"len(T)": 5, "U1": 6, "U2": 7, "σ_U": 8, "i": 9, "rank1": 10, "nx1": 11, "x1[i]": 12, "x2[j]": 13, "merged[i]": 14, "v1": 15, "labels[i]": 16}
+
+	header("UTestFacts", "internal/stats/utest.go")
+	pf("def exactLimit : Nat := %s\ndef tiesExactLimit : Nat := %s\n", lim.natVal("MannWhitneyExactLimit"), tlim.natVal("MannWhitneyTiesExactLimit"))
+	pf("/-- operand codes of the conditions below: %s; 1000+n: the integer literal n -/\n", codeDoc(codes))
+	pf("def operandCodes : Unit := ()\n")
+	has := func(sub string) func(string) bool { return func(c string) bool { return strings.Contains(c, sub) } }
+	emitCond("sizeCond", "empty-sample check (ErrSampleSize)", mustIf(mw.Body, "sizeCond", has("n1 == 0")).Cond, codes)
+	method := mustIf(mw.Body, "methodCond", has("MannWhitneyExactLimit"))
+	emitCond("methodCond", "exact distribution vs normal approximation", method.Cond, codes)
+	emitCond("allEqualExactCond", "exact branch: ErrSamplesEqual", mustIf(method.Body, "allEqualExactCond", has("len(T)")).Cond, codes)
+	emitCond("symmetricCond", "exact two-sided: p = 1", mustIf(method.Body, "symmetricCond", has("U1 ==")).Cond, codes)
+	if method.Else == nil {
+		die("methodCond: no else branch")
+	}
+	emitCond("sigmaZeroCond", "normal branch: ErrSamplesEqual", mustIf(method.Else, "sigmaZeroCond", has("σ_U")).Cond, codes)
+	emitCond("hasTiesCond", "rank loop: a tie group has more than one element", mustIf(mw.Body, "hasTiesCond", has("rank1")).Cond, codes)
+	emitCond("nx1Cond", "rank loop: the tie group has members of sample 1", mustIf(mw.Body, "nx1Cond", has("nx1")).Cond, codes)
+	emitCond("mergeCond", "labeledMerge: take from x1", mustIf(lm.Body, "mergeCond", has("x1[i]")).Cond, codes)
+	var tieRun ast.Expr
+	ast.Inspect(mw.Body, func(n ast.Node) bool {
+		if fs, ok := n.(*ast.ForStmt); ok && fs.Cond != nil && strings.Contains(src(fs.Cond), "v1") {
+			if be, ok := fs.Cond.(*ast.BinaryExpr); ok && be.Op == token.LAND {
+				tieRun = be.Y
+			}
+		}
+		return true
+	})
+	if tieRun == nil {
+		die("tie-run loop not found")
+	}
+	emitCond("tieRunCond", "rank loop: the element ties the head of the group", tieRun, codes)
+
+	// continuity correction: switch alt { case X: numer op= [mathSign(numer) *] lit }
+	altCode := map[string]int{"LocationLess": 0, "LocationDiffers": 1, "LocationGreater": 2}
+	var cont []string
+	var exactTwoSidedFactor *num
+	greaterStep := ""
+	var sigmaDiv, meanDiv *num
+	ast.Inspect(mw.Body, func(n ast.Node) bool {
+		switch x := n.(type) {
+		case *ast.CaseClause:
+			if len(x.List) != 1 || len(x.Body) != 1 {
+				return true
+			}
+			ac, ok := altCode[src(x.List[0])]
+			if !ok {
+				return true
+			}
+			as, ok := x.Body[0].(*ast.AssignStmt)
+			if !ok || len(as.Lhs) != 1 {
+				return true
+			}
+			if isIdent(as.Lhs[0], "numer") {
+				add := 0
+				switch as.Tok {
+				case token.ADD_ASSIGN:
+					add = 1
+				case token.SUB_ASSIGN:
+					add = 0
+				default:
+					die("continuity correction: operator %s", as.Tok)
+				}
+				sign := false
+				rhs := unparen(as.Rhs[0])
+				if be, ok := rhs.(*ast.BinaryExpr); ok && be.Op == token.MUL {
+					if fun, _, ok := callOf(be.X); ok && fun == "mathSign" {
+						sign = true
+						rhs = be.Y
+					}
+				}
+				v := mustNum(rhs, "continuity correction")
+				cont = append(cont, fmt.Sprintf("(%d, %d, %v, %s)", ac, add, sign, v.lean()))
+			}
+			if isIdent(as.Lhs[0], "p") && ac == 2 && strings.Contains(src(as.Rhs[0]), "dist.CDF") {
+				greaterStep = strings.Join(strings.Fields(src(as.Rhs[0])), " ")
+			}
+		case *ast.AssignStmt:
+			if len(x.Lhs) == 1 && len(x.Rhs) == 1 {
+				r := unparen(x.Rhs[0])
+				if isIdent(x.Lhs[0], "p") {
+					if be, ok := r.(*ast.BinaryExpr); ok && be.Op == token.MUL && strings.Contains(src(be.X), "dist.CDF(Usmall)") {
+						v := mustNum(be.Y, "two-sided factor")
+						exactTwoSidedFactor = &v
+					}
+				}
+				if isIdent(x.Lhs[0], "μ_U") {
+					if be, ok := r.(*ast.BinaryExpr); ok && be.Op == token.QUO {
+						v := mustNum(be.Y, "μ_U divisor")
+						meanDiv = &v
+					}
+				}
+				if isIdent(x.Lhs[0], "σ_U") {
+					if _, args, ok := callOf(r); ok && len(args) == 1 {
+						if be, ok := unparen(args[0]).(*ast.BinaryExpr); ok && be.Op == token.QUO {
+							v := mustNum(be.Y, "σ_U divisor")
+							sigmaDiv = &v
+						}
+					}
+				}
+			}
+		}
+		return true
+	})
+	if len(cont) != 3 || exactTwoSidedFactor == nil || meanDiv == nil || sigmaDiv == nil || greaterStep == "" {
+		die("MannWhitneyUTest: formulas not recognised (cont=%d)", len(cont))
+	}
+	pf("/-- continuity correction `numer op= [mathSign(numer) *] c`: (alternative 0:Less 1:Differs 2:Greater, 0:`-=` 1:`+=`, multiplied by mathSign(numer)?, c as (negative, mantissa, decimal exponent)) -/\n")
+	pf("def continuity : List (Nat × Nat × Bool × (Bool × Nat × Int)) := %s\n", joinS(cont))
+	pf("def exactTwoSidedFactor : Nat := %s\ndef meanDivisor : Nat := %s\ndef sigmaDivisor : Nat := %s\n", exactTwoSidedFactor.natVal("factor"), meanDiv.natVal("divisor"), sigmaDiv.natVal("divisor"))
+	pf("def greaterExactExpr : String := %s\n", leanStr(greaterStep))
+	footer("UTestFacts", mw, lm)
+}
+
+// ---------------------------------------------------------------- C17: benchstat/{data,table,scaler}.go
+
+func methodDecl(f *ast.File, recv, name string) *ast.FuncDecl {
+	for _, d := range f.Decls {
+		fd, ok := d.(*ast.FuncDecl)
+		if !ok || fd.Name.Name != name || fd.Recv == nil || len(fd.Recv.List) != 1 {
+			continue
+		}
+		if strings.TrimPrefix(src(fd.Recv.List[0].Type), "*") == recv {
+			return fd
+		}
+	}
+	die("method %s.%s not found", recv, name)
+	return nil
+}
+
+var fmtRe = regexp.MustCompile(`^%\.(\d+)f(.*)$`)
+
+// fmtPrec parses "%.Nf<suffix>".
+func fmtPrec(e ast.Expr, what string) (int, string) {
+	s, ok := strLit(e)
+	if !ok {
+		die("%s: format %s is not a string literal", what, src(e))
+	}
+	m := fmtRe.FindStringSubmatch(s)
+	if m == nil {
+		die("%s: format %q not of the form %%.Nf<suffix>", what, s)
+	}
+	n, _ := strconv.Atoi(m[1])
+	return n, m[2]
+}
+
+// natProduct evaluates a product of non-negative integer literals (`1000*1000`).
+func natProduct(e ast.Expr, what string) *big.Int {
+	e = unparen(e)
+	if be, ok := e.(*ast.BinaryExpr); ok && be.Op == token.MUL {
+		return new(big.Int).Mul(natProduct(be.X, what), natProduct(be.Y, what))
+	}
+	n := mustNum(e, what)
+	v, ok := new(big.Int).SetString(n.natVal(what), 10)
+	if !ok {
+		die("%s: %s", what, src(e))
+	}
+	return v
+}
+
+// scalerRows reads `switch x := …; { case x >= T: format, scale[, suffix] = … ; default: … }`.
+// Row: (operator code, threshold, precision, scale, suffix); the default row has operator 9.
+func scalerRows(sw *ast.SwitchStmt, what string, timeForm bool) []string {
+	var rows []string
+	for _, c := range sw.Body.List {
+		cc := c.(*ast.CaseClause)
+		op, thr := 9, num{"0", false, "0", 0}
+		if len(cc.List) == 1 {
+			be, ok := unparen(cc.List[0]).(*ast.BinaryExpr)
+			if !ok || !isIdent(be.X, "x") || opN(be.Op) > 3 {
+				die("%s: case %s", what, src(cc.List[0]))
+			}
+			op, thr = opN(be.Op), mustNum(be.Y, what+" threshold")
+		} else if len(cc.List) != 0 {
+			die("%s: case with %d expressions", what, len(cc.List))
+		}
+		if len(cc.Body) != 1 {
+			die("%s: case body with %d statements", what, len(cc.Body))
+		}
+		as, ok := cc.Body[0].(*ast.AssignStmt)
+		want := 3
+		if timeForm {
+			want = 2
+		}
+		if !ok || len(as.Rhs) != want || len(as.Lhs) != want || !isIdent(as.Lhs[0], "format") || !isIdent(as.Lhs[1], "scale") {
+			die("%s: case body %s", what, src(cc.Body[0]))
+		}
+		prec, fsuffix := fmtPrec(as.Rhs[0], what)
+		if timeForm {
+			rows = append(rows, fmt.Sprintf("(%d, %s, %d, %s, %s)", op, thr.lean(), prec, natProduct(as.Rhs[1], what+" scale").String(), leanStr(fsuffix)))
+		} else {
+			if fsuffix != "" {
+				die("%s: format with a suffix", what)
+			}
+			suffix, ok := strLit(as.Rhs[2])
+			if !ok {
+				die("%s: suffix %s", what, src(as.Rhs[2]))
+			}
+			rows = append(rows, fmt.Sprintf("(%d, %s, %d, %s, %s)", op, thr.lean(), prec, mustNum(as.Rhs[1], what+" scale").lean(), leanStr(suffix)))
+		}
+	}
+	return rows
+}
+
+// baseUnitArgs lists the unit literals of `hasBaseUnit(unit, "…") || …` in a condition.
+func baseUnitArgs(cond ast.Expr, what string) []string {
+	var out []string
+	var walk func(e ast.Expr)
+	walk = func(e ast.Expr) {
+		e = unparen(e)
+		if be, ok := e.(*ast.BinaryExpr); ok && be.Op == token.LOR {
+			walk(be.X)
+			walk(be.Y)
+			return
+		}
+		fun, args, ok := callOf(e)
+		if ok && fun == "hasBaseUnit" && len(args) == 2 && isIdent(args[0], "unit") {
+			if s, ok := strLit(args[1]); ok {
+				out = append(out, s)
+				return
+			}
+		}
+		die("%s: unexpected condition %s", what, src(e))
+	}
+	walk(cond)
+	return out
+}
+
+func bytesList(l []string) string {
+	b := make([]string, len(l))
+	for i, s := range l {
+		b[i] = bytesOf(s)
+	}
+	return joinS(b)
+}
+
+func legacyFacts(repo string) {
+	data := parseFile(repo, "benchstat/data.go")
+	table := parseFile(repo, "benchstat/table.go")
+	scaler := parseFile(repo, "benchstat/scaler.go")
+	cs := methodDecl(data, "Metrics", "computeStats")
+	tb := methodDecl(table, "Collection", "Tables")
+	mo := funcDecl(table, "metricOf")
+	ns := funcDecl(scaler, "NewScaler")
+	ts := funcDecl(scaler, "timeScaler")
+	hb := funcDecl(scaler, "hasBaseUnit")
+	has := func(sub string) func(string) bool { return func(c string) bool { return strings.Contains(c, sub) } }
+
+	header("LegacyFacts", "benchstat/data.go", "benchstat/table.go", "benchstat/scaler.go")
+
+	// ---- computeStats
+	var pcts []string
+	var loE, hiE ast.Expr
+	ast.Inspect(cs.Body, func(n ast.Node) bool {
+		if as, ok := n.(*ast.AssignStmt); ok {
+			if len(as.Lhs) == 2 && isIdent(as.Lhs[0], "q1") && isIdent(as.Lhs[1], "q3") {
+				for _, r := range as.Rhs {
+					fun, args, ok := callOf(r)
+					if !ok || fun != "values.Percentile" || len(args) != 1 {
+						die("computeStats: quartiles %s", src(r))
+					}
+					pcts = append(pcts, mustNum(args[0], "computeStats percentile").lean())
+				}
+			}
+			if len(as.Lhs) == 2 && isIdent(as.Lhs[0], "lo") && isIdent(as.Lhs[1], "hi") && len(as.Rhs) == 2 {
+				loE, hiE = as.Rhs[0], as.Rhs[1]
+			}
+		}
+		return true
+	})
+	if len(pcts) != 2 || loE == nil {
+		die("computeStats: quartile/fence assignments not found")
+	}
+	// fence bound: q op k*(q3-q1)
+	bound := func(e ast.Expr, q string) (int, num) {
+		be, ok := unparen(e).(*ast.BinaryExpr)
+		if !ok || !isIdent(be.X, q) || (be.Op != token.SUB && be.Op != token.ADD) {
+			die("computeStats: fence bound %s", src(e))
+		}
+		m, ok := unparen(be.Y).(*ast.BinaryExpr)
+		if !ok || m.Op != token.MUL || strings.Join(strings.Fields(src(unparen(m.Y))), "") != "q3-q1" {
+			die("computeStats: fence bound %s", src(e))
+		}
+		op := 0
+		if be.Op == token.ADD {
+			op = 1
+		}
+		return op, mustNum(m.X, "fence factor")
+	}
+	loOp, loK := bound(loE, "q1")
+	hiOp, hiK := bound(hiE, "q3")
+	pf("/-- `values.Percentile(…)` arguments of q1, q3 -/\ndef quartiles : List (Bool × Nat × Int) := %s\n", joinS(pcts))
+	pf("/-- fence bounds `q1 op k*(q3-q1)`, `q3 op k*(q3-q1)`: (0:`-` 1:`+`, k); source `%s`, `%s` -/\n", src(loE), src(hiE))
+	pf("def fenceLo : Nat × (Bool × Nat × Int) := (%d, %s)\ndef fenceHi : Nat × (Bool × Nat × Int) := (%d, %s)\n", loOp, loK.lean(), hiOp, hiK.lean())
+	pf("def fenceFactorText : List String := %s\n", leanStrList([]string{loK.text, hiK.text}))
+	fcodes := map[string]int{"lo": 0, "value": 1, "hi": 2}
+	pf("/-- operand codes: %s -/\ndef fenceCodes : Unit := ()\n", codeDoc(fcodes))
+	emitCond("fenceCond", "a value is kept (not an outlier)", mustIf(cs.Body, "fenceCond", has("value")).Cond, fcodes)
+
+	// ---- Tables
+	tcodes := map[string]int{"alpha": 0, "pval": 1, "new.Mean": 2, "old.Mean": 3, "len(c.Configs)": 4, "pct": 5}
+	pf("/-- operand codes of the table.go conditions: %s; 1000+n / 2000+n: the literals n / -n -/\ndef tableCodes : Unit := ()\n", codeDoc(tcodes))
+	az := mustIf(tb.Body, "alphaZeroCond", has("alpha == 0"))
+	emitCond("alphaZeroCond", "Alpha unset", az.Cond, tcodes)
+	as0, ok := az.Body.List[0].(*ast.AssignStmt)
+	if !ok || !isIdent(as0.Lhs[0], "alpha") {
+		die("Tables: default alpha assignment")
+	}
+	da := mustNum(as0.Rhs[0], "default alpha")
+	pf("def defaultAlpha : Bool × Nat × Int := %s\ndef defaultAlphaText : String := %s\n", da.lean(), leanStr(da.text))
+	emitCond("significantCond", "the difference is significant", mustIf(tb.Body, "significantCond", has("pval <")).Cond, tcodes)
+	emitCond("meanEqualCond", "significant but equal means", mustIf(tb.Body, "meanEqualCond", has("new.Mean ==")).Cond, tcodes)
+	var pvalNote, ond ast.Expr
+	var pctE ast.Expr
+	ast.Inspect(tb.Body, func(n ast.Node) bool {
+		switch x := n.(type) {
+		case *ast.IfStmt:
+			if be, ok := x.Cond.(*ast.BinaryExpr); ok && be.Op == token.LAND && strings.Contains(src(be.Y), "pval") && pvalNote == nil {
+				pvalNote = be.Y
+			}
+		case *ast.AssignStmt:
+			if len(x.Lhs) == 1 && src(x.Lhs[0]) == "table.OldNewDelta" {
+				ond = x.Rhs[0]
+			}
+			if len(x.Lhs) == 1 && isIdent(x.Lhs[0], "pct") && x.Tok == token.DEFINE && pctE == nil {
+				pctE = x.Rhs[0]
+			}
+		}
+		return true
+	})
+	if pvalNote == nil || ond == nil || pctE == nil {
+		die("Tables: note condition / OldNewDelta / pct not found")
+	}
+	emitCond("pvalNoteCond", "a p-value is available for the note", pvalNote, tcodes)
+	emitCond("oldNewDeltaCond", "the table has a delta column", ond, tcodes)
+	// pct := ((new.Mean / old.Mean) - 1.0) * 100.0
+	pm, ok := unparen(pctE).(*ast.BinaryExpr)
+	if !ok || pm.Op != token.MUL {
+		die("Tables: pct expression %s", src(pctE))
+	}
+	psub, ok := unparen(pm.X).(*ast.BinaryExpr)
+	if !ok || psub.Op != token.SUB || strings.Join(strings.Fields(src(unparen(psub.X))), "") != "new.Mean/old.Mean" {
+		die("Tables: pct expression %s", src(pctE))
+	}
+	pf("/-- `pct := ((new.Mean / old.Mean) - a) * b` -/\ndef pctMinus : Bool × Nat × Int := %s\ndef pctTimes : Bool × Nat × Int := %s\n",
+		mustNum(psub.Y, "pct").lean(), mustNum(pm.Y, "pct").lean())
+	// if pct < 0 == (table.Metric != "speed") { row.Change = +1 } else { row.Change = -1 }
+	ch := mustIf(tb.Body, "change", has("table.Metric"))
+	cbe, ok := unparen(ch.Cond).(*ast.BinaryExpr)
+	if !ok || opN(cbe.Op) > 5 {
+		die("Tables: change condition %s", src(ch.Cond))
+	}
+	cl, ok1 := unparen(cbe.X).(*ast.BinaryExpr)
+	cr, ok2 := unparen(cbe.Y).(*ast.BinaryExpr)
+	if !ok1 || !ok2 || !isIdent(cl.X, "pct") || src(cr.X) != "table.Metric" {
+		die("Tables: change condition %s", src(ch.Cond))
+	}
+	speedName, ok := strLit(cr.Y)
+	if !ok {
+		die("Tables: change condition %s", src(ch.Cond))
+	}
+	chVal := func(b *ast.BlockStmt) num {
+		if len(b.List) == 1 {
+			if as, ok := b.List[0].(*ast.AssignStmt); ok && src(as.Lhs[0]) == "row.Change" {
+				return mustNum(as.Rhs[0], "row.Change")
+			}
+		}
+		die("Tables: change branch")
+		return num{}
+	}
+	elseB, ok := ch.Else.(*ast.BlockStmt)
+	if !ok {
+		die("Tables: change else branch")
+	}
+	thenV, elseV := chVal(ch.Body), chVal(elseB)
+	sgn := func(n num) string {
+		neg := n.neg
+		n.neg = false
+		if neg {
+			return "-" + n.natVal("change")
+		}
+		return n.natVal("change")
+	}
+	pf("/-- `if (pct L z) M (table.Metric R name) { row.Change = a } else { row.Change = b }`: source `%s` -/\n", src(ch.Cond))
+	pf("def changeLeftOp : Nat := %d\ndef changeLeftRhs : Bool × Nat × Int := %s\ndef changeMidOp : Nat := %d\ndef changeRightOp : Nat := %d\n",
+		opN(cl.Op), mustNum(cl.Y, "change").lean(), opN(cbe.Op), opN(cr.Op))
+	pf("def speedMetricS : String := %s\ndef speedMetric : List Nat := %s\n", leanStr(speedName), bytesOf(speedName))
+	pf("def changeThen : Int := %s\ndef changeElse : Int := %s\n", sgn(thenV), sgn(elseV))
+
+	// metricSuffix map literal, in source order
+	msE, ok := varInit(table, "metricSuffix").(*ast.CompositeLit)
+	if !ok {
+		die("metricSuffix is not a composite literal")
+	}
+	var msS, msN []string
+	for _, el := range msE.Elts {
+		kv := el.(*ast.KeyValueExpr)
+		k, ok1 := strLit(kv.Key)
+		v, ok2 := strLit(kv.Value)
+		if !ok1 || !ok2 {
+			die("metricSuffix entry %s", src(el))
+		}
+		msS = append(msS, fmt.Sprintf("(%s, %s)", leanStr(k), leanStr(v)))
+		msN = append(msN, fmt.Sprintf("(%s, %s)", bytesOf(k), bytesOf(v)))
+	}
+	pf("def metricSuffixS : List (String × String) := %s\ndef metricSuffix : List (List Nat × List Nat) := %s\n", joinS(msS), joinS(msN))
+
+	// ---- scaler.go
+	timeIf := mustIf(ns.Body, "NewScaler time units", has("ns/op"))
+	timeUnits := baseUnitArgs(timeIf.Cond, "NewScaler time units")
+	var prescaleDefault, prescale *num
+	var prescaleUnits, byteUnits, rateUnits []string
+	byteSuffix, rateSuffix := "", ""
+	var nsSwitch *ast.SwitchStmt
+	for _, st := range ns.Body.List {
+		switch x := st.(type) {
+		case *ast.AssignStmt:
+			if len(x.Lhs) == 1 && isIdent(x.Lhs[0], "prescale") && x.Tok == token.DEFINE {
+				v := mustNum(x.Rhs[0], "prescale")
+				prescaleDefault = &v
+			}
+		case *ast.IfStmt:
+			if len(x.Body.List) != 1 {
+				continue
+			}
+			as, ok := x.Body.List[0].(*ast.AssignStmt)
+			if !ok || len(as.Lhs) != 1 {
+				continue
+			}
+			if isIdent(as.Lhs[0], "prescale") {
+				v := mustNum(as.Rhs[0], "prescale")
+				prescale = &v
+				prescaleUnits = baseUnitArgs(x.Cond, "prescale units")
+			}
+			if isIdent(as.Lhs[0], "suffix") && as.Tok == token.ADD_ASSIGN {
+				sfx, ok := strLit(as.Rhs[0])
+				if !ok {
+					die("NewScaler: suffix %s", src(as.Rhs[0]))
+				}
+				if byteSuffix == "" {
+					byteSuffix, byteUnits = sfx, baseUnitArgs(x.Cond, "byte units")
+				} else {
+					rateSuffix, rateUnits = sfx, baseUnitArgs(x.Cond, "rate units")
+				}
+			}
+		case *ast.SwitchStmt:
+			nsSwitch = x
+		}
+	}
+	if prescaleDefault == nil || prescale == nil || byteSuffix == "" || rateSuffix == "" || nsSwitch == nil {
+		die("NewScaler: structure not recognised")
+	}
+	var tsSwitch *ast.SwitchStmt
+	var tsDiv *num
+	for _, st := range ts.Body.List {
+		if x, ok := st.(*ast.SwitchStmt); ok {
+			tsSwitch = x
+			if as, ok := x.Init.(*ast.AssignStmt); ok {
+				if be, ok := as.Rhs[0].(*ast.BinaryExpr); ok && be.Op == token.QUO && isIdent(be.X, "ns") {
+					v := mustNum(be.Y, "timeScaler divisor")
+					tsDiv = &v
+				}
+			}
+		}
+	}
+	if tsSwitch == nil || tsDiv == nil {
+		die("timeScaler: structure not recognised")
+	}
+	pf("def timeUnitsS : List String := %s\ndef timeUnits : List (List Nat) := %s\n", leanStrList(timeUnits), bytesList(timeUnits))
+	pf("def prescaleUnitsS : List String := %s\ndef prescaleUnits : List (List Nat) := %s\n", leanStrList(prescaleUnits), bytesList(prescaleUnits))
+	pf("def prescaleDefault : Bool × Nat × Int := %s\ndef prescale : Bool × Nat × Int := %s\n", prescaleDefault.lean(), prescale.lean())
+	pf("def byteUnitsS : List String := %s\ndef byteUnits : List (List Nat) := %s\ndef byteSuffix : String := %s\n", leanStrList(byteUnits), bytesList(byteUnits), leanStr(byteSuffix))
+	pf("def rateUnitsS : List String := %s\ndef rateUnits : List (List Nat) := %s\ndef rateSuffix : String := %s\n", leanStrList(rateUnits), bytesList(rateUnits), leanStr(rateSuffix))
+	pf("/-- NewScaler `switch x := %s`: (operator code, threshold, precision of the format, scale, suffix); the `default` row has operator 9 -/\n", src(nsSwitch.Init.(*ast.AssignStmt).Rhs[0]))
+	pf("def scalerRows : List (Nat × (Bool × Nat × Int) × Nat × (Bool × Nat × Int) × String) := %s\n", joinS(scalerRows(nsSwitch, "NewScaler", false)))
+	pf("/-- timeScaler `switch x := ns / d`: (operator code, threshold, precision, scale (product evaluated), unit suffix of the format) -/\n")
+	pf("def timeDivisor : Bool × Nat × Int := %s\n", tsDiv.lean())
+	pf("def timeRows : List (Nat × (Bool × Nat × Int) × Nat × Nat × String) := %s\n", joinS(scalerRows(tsSwitch, "timeScaler", true)))
+	pf("def hasBaseUnitExpr : String := %s\n", leanStr(src(hb.Body.List[0].(*ast.ReturnStmt).Results[0])))
+	footer("LegacyFacts", cs, tb, mo, ns, ts, hb)
+}
+
+// ---------------------------------------------------------------- C13: benchmath/anone.go, sample.go
+
+// retOp maps the ">=" / ">" strings the functions return to operator codes.
+func retOp(e ast.Expr, what string) int {
+	s, ok := strLit(e)
+	if !ok {
+		die("%s: %s is not a string literal", what, src(e))
+	}
+	switch s {
+	case ">=":
+		return 0
+	case ">":
+		return 1
+	}
+	die("%s: operator string %q", what, s)
+	return 9
+}
+
+func nothingFacts(repo string) {
+	f := parseFile(repo, "benchmath/anone.go")
+	sf := parseFile(repo, "benchmath/sample.go")
+	ms := funcDecl(f, "medianSamples")
+	mc := funcDecl(f, "medianCI")
+	us := funcDecl(f, "uTestSamples")
+	cmp := methodDecl(f, "assumeNothing", "Compare")
+	sum := methodDecl(f, "assumeNothing", "Summary")
+	has := func(sub string) func(string) bool { return func(c string) bool { return strings.Contains(c, sub) } }
+
+	header("NothingFacts", "benchmath/anone.go", "benchmath/sample.go")
+
+	// uTestMinP
+	tab, ok := varInit(f, "uTestMinP").(*ast.CompositeLit)
+	if !ok {
+		die("uTestMinP is not a composite literal")
+	}
+	var rows, texts []string
+	maxIdx := -1
+	next := 0
+	for _, el := range tab.Elts {
+		idx, val := next, el
+		if kv, ok := el.(*ast.KeyValueExpr); ok {
+			k := mustNum(kv.Key, "uTestMinP index")
+			idx, _ = strconv.Atoi(k.natVal("uTestMinP index"))
+			val = kv.Value
+		}
+		v := mustNum(val, "uTestMinP value")
+		rows = append(rows, fmt.Sprintf("(%d, %s)", idx, v.lean()))
+		texts = append(texts, v.text)
+		next = idx + 1
+		if idx > maxIdx {
+			maxIdx = idx
+		}
+	}
+	pf("/-- `uTestMinP` entries (index, value); unlisted indices are 0 -/\n")
+	pf("def uTestMinP : List (Nat × (Bool × Nat × Int)) := %s\n", joinS(rows))
+	pf("def uTestMinPText : List String := %s\n", leanStrList(texts))
+	pf("/-- `len(uTestMinP)` -/\ndef uTestMinPLen : Nat := %d\n", maxIdx+1)
+
+	// uTestSamples
+	ucodes := map[string]int{"n": 0, "minP": 1, "alpha": 2}
+	pf("/-- operand codes of the uTestSamples conditions: %s -/\ndef uTestCodes : Unit := ()\n", codeDoc(ucodes))
+	skip := mustIf(us.Body, "uTestSamples skip", has("n =="))
+	if b, ok := skip.Body.List[0].(*ast.BranchStmt); !ok || b.Tok != token.CONTINUE {
+		die("uTestSamples: skip body")
+	}
+	emitCond("uTestSkipCond", "index skipped", skip.Cond, ucodes)
+	found := mustIf(us.Body, "uTestSamples found", has("minP"))
+	emitCond("uTestFoundCond", "first n whose minimal p-value reaches alpha", found.Cond, ucodes)
+	fr, ok := found.Body.List[0].(*ast.ReturnStmt)
+	if !ok || len(fr.Results) != 2 || !isIdent(fr.Results[1], "n") {
+		die("uTestSamples: found return")
+	}
+	lr, ok := us.Body.List[len(us.Body.List)-1].(*ast.ReturnStmt)
+	if !ok || len(lr.Results) != 2 || src(lr.Results[1]) != "len(uTestMinP)" {
+		die("uTestSamples: final return")
+	}
+	pf("/-- returned operator strings: 0:\">=\" 1:\">\"; the fallback count is len(uTestMinP) -/\n")
+	pf("def uTestFoundOp : Nat := %d\ndef uTestFallbackOp : Nat := %d\n", retOp(fr.Results[0], "uTestSamples"), retOp(lr.Results[0], "uTestSamples"))
+
+	// medianSamples
+	var limit *num
+	ast.Inspect(ms.Body, func(n ast.Node) bool {
+		if vs, ok := n.(*ast.ValueSpec); ok && len(vs.Names) == 1 && vs.Names[0].Name == "limit" {
+			v := mustNum(vs.Values[0], "medianSamples limit")
+			limit = &v
+		}
+		return true
+	})
+	var loop *ast.ForStmt
+	for _, st := range ms.Body.List {
+		if x, ok := st.(*ast.ForStmt); ok {
+			loop = x
+		}
+	}
+	if limit == nil || loop == nil {
+		die("medianSamples: limit / loop not found")
+	}
+	init, ok := loop.Init.(*ast.AssignStmt)
+	if !ok || !isIdent(init.Lhs[0], "n") || src(loop.Post) != "n++" {
+		die("medianSamples: loop header")
+	}
+	mcodes := map[string]int{"n": 0, "limit": 1, "ci.LoOrder": 2, "ci.HiOrder": 3}
+	pf("def medianLimit : Nat := %s\ndef medianStart : Nat := %s\n", limit.natVal("limit"), mustNum(init.Rhs[0], "medianSamples start").natVal("start"))
+	pf("/-- operand codes of the medianSamples conditions: %s -/\ndef medianCodes : Unit := ()\n", codeDoc(mcodes))
+	emitCond("medianLoopCond", "loop continues", loop.Cond, mcodes)
+	mfound := mustIf(loop.Body, "medianSamples found", has("ci.LoOrder"))
+	emitCond("medianFoundCond", "both order statistics exist", mfound.Cond, mcodes)
+	mfr, ok := mfound.Body.List[0].(*ast.ReturnStmt)
+	if !ok || len(mfr.Results) != 2 || !isIdent(mfr.Results[1], "n") {
+		die("medianSamples: found return")
+	}
+	mlr, ok := ms.Body.List[len(ms.Body.List)-1].(*ast.ReturnStmt)
+	if !ok || len(mlr.Results) != 2 || !isIdent(mlr.Results[1], "limit") {
+		die("medianSamples: final return")
+	}
+	pf("def medianFoundOp : Nat := %d\ndef medianFallbackOp : Nat := %d\n", retOp(mfr.Results[0], "medianSamples"), retOp(mlr.Results[0], "medianSamples"))
+	var quant *num
+	ast.Inspect(mc.Body, func(n ast.Node) bool {
+		if fun, args, ok := callOfNode(n); ok && fun == "stats.QuantileCI" && len(args) == 3 {
+			v := mustNum(args[1], "medianCI quantile")
+			quant = &v
+		}
+		return true
+	})
+	if quant == nil {
+		die("medianCI: stats.QuantileCI call not found")
+	}
+	pf("/-- the quantile passed to stats.QuantileCI by medianCI -/\ndef medianQuantile : Bool × Nat × Int := %s\n", quant.lean())
+
+	// Summary / Compare
+	infIf := mustIf(sum.Body, "Summary warning", has("math.IsInf"))
+	pf("def summaryWarnCond : String := %s\n", leanStr(src(infIf.Cond)))
+	ccodes := map[string]int{"cmp.P": 0, "cmp.Alpha": 1, "cmp.N1": 2, "cmp.N2": 3, "n": 4}
+	pf("/-- operand codes of the Compare conditions: %s -/\ndef compareCodes : Unit := ()\n", codeDoc(ccodes))
+	warn := mustIf(cmp.Body, "Compare warning", has("cmp.P"))
+	emitCond("compareWarnCond", "the comparison is not significant", warn.Cond, ccodes)
+	emitCond("compareFewCond", "both samples are smaller than needed", mustIf(warn.Body, "Compare few", has("cmp.N1")).Cond, ccodes)
+	var capV, facV, errP *num
+	ast.Inspect(cmp.Body, func(n ast.Node) bool {
+		if fun, args, ok := callOfNode(n); ok && fun == "math.Min" && len(args) == 2 {
+			if be, ok := unparen(args[1]).(*ast.BinaryExpr); ok && be.Op == token.MUL {
+				c, fct := mustNum(args[0], "Compare cap"), mustNum(be.X, "Compare factor")
+				capV, facV = &c, &fct
+			}
+		}
+		if cl, ok := n.(*ast.CompositeLit); ok && src(cl.Type) == "Comparison" && errP == nil {
+			for _, el := range cl.Elts {
+				if kv, ok := el.(*ast.KeyValueExpr); ok && isIdent(kv.Key, "P") {
+					if v, ok := numLit(kv.Value); ok {
+						errP = &v
+					}
+				}
+			}
+		}
+		return true
+	})
+	if capV == nil || errP == nil {
+		die("Compare: p-value formula not recognised")
+	}
+	pf("/-- `p = math.Min(cap, factor*math.Min(l1.P, l2.P))`; P reported when the test fails -/\n")
+	pf("def twoSidedCap : Bool × Nat × Int := %s\ndef twoSidedFactor : Bool × Nat × Int := %s\ndef errorP : Bool × Nat × Int := %s\n", capV.lean(), facV.lean(), errP.lean())
+
+	// DefaultThresholds
+	dt, ok := varInit(sf, "DefaultThresholds").(*ast.CompositeLit)
+	if !ok {
+		die("DefaultThresholds is not a composite literal")
+	}
+	var alpha *num
+	for _, el := range dt.Elts {
+		if kv, ok := el.(*ast.KeyValueExpr); ok && isIdent(kv.Key, "CompareAlpha") {
+			v := mustNum(kv.Value, "CompareAlpha")
+			alpha = &v
+		}
+	}
+	if alpha == nil {
+		die("DefaultThresholds.CompareAlpha not found")
+	}
+	pf("def defaultCompareAlpha : Bool × Nat × Int := %s\ndef defaultCompareAlphaText : String := %s\n", alpha.lean(), leanStr(alpha.text))
+	footer("NothingFacts", mc, ms, sum, tab, us, cmp, dt)
+}
+
+func callOfNode(n ast.Node) (string, []ast.Expr, bool) {
+	c, ok := n.(*ast.CallExpr)
+	if !ok {
+		return "", nil, false
+	}
+	return src(c.Fun), c.Args, true
+}
+
+// ---------------------------------------------------------------- C12: internal/stats numeric constants
+
+// ratOf evaluates a Go constant expression (decimal literals, + - * /, unary -, named constants
+// from env) exactly. Go evaluates untyped constant expressions exactly as well, and converts the
+// result to float64 once.
+func ratOf(e ast.Expr, env map[string]*big.Rat, what string) *big.Rat {
+	e = unparen(e)
+	switch v := e.(type) {
+	case *ast.BasicLit:
+		n := mustNum(e, what)
+		m, _ := new(big.Int).SetString(n.mant, 10)
+		r := new(big.Rat).SetInt(m)
+		p := new(big.Int).Exp(big.NewInt(10), big.NewInt(int64(abs(n.exp))), nil)
+		if n.exp >= 0 {
+			r.Mul(r, new(big.Rat).SetInt(p))
+		} else {
+			r.Quo(r, new(big.Rat).SetInt(p))
+		}
+		return r
+	case *ast.Ident:
+		if r, ok := env[v.Name]; ok {
+			return r
+		}
+	case *ast.SelectorExpr:
+		if r, ok := env[src(v)]; ok {
+			return r
+		}
+	case *ast.UnaryExpr:
+		if v.Op == token.SUB {
+			return new(big.Rat).Neg(ratOf(v.X, env, what))
+		}
+		if v.Op == token.ADD {
+			return ratOf(v.X, env, what)
+		}
+	case *ast.BinaryExpr:
+		x, y := ratOf(v.X, env, what), ratOf(v.Y, env, what)
+		switch v.Op {
+		case token.ADD:
+			return new(big.Rat).Add(x, y)
+		case token.SUB:
+			return new(big.Rat).Sub(x, y)
+		case token.MUL:
+			return new(big.Rat).Mul(x, y)
+		case token.QUO:
+			if y.Sign() != 0 {
+				return new(big.Rat).Quo(x, y)
+			}
+		}
+	}
+	die("%s: cannot evaluate constant expression %s", what, src(e))
+	return nil
+}
+
+func abs(i int) int {
+	if i < 0 {
+		return -i
+	}
+	return i
+}
+
+// leanRat renders (negative, numerator, denominator) : Bool × Nat × Nat
+func leanRat(r *big.Rat) string {
+	return fmt.Sprintf("(%v, %s, %s)", r.Sign() < 0, new(big.Int).Abs(r.Num()).String(), r.Denom().String())
+}
+
+// localConsts evaluates the `const` declarations inside a function body, in order.
+func localConsts(body ast.Node, env map[string]*big.Rat, what string) (names []string, text map[string]string) {
+	text = map[string]string{}
+	ast.Inspect(body, func(n ast.Node) bool {
+		gd, ok := n.(*ast.GenDecl)
+		if !ok || gd.Tok != token.CONST {
+			return true
+		}
+		for _, sp := range gd.Specs {
+			vs := sp.(*ast.ValueSpec)
+			for i, nm := range vs.Names {
+				if i >= len(vs.Values) {
+					die("%s: constant %s without a value", what, nm.Name)
+				}
+				env[nm.Name] = ratOf(vs.Values[i], env, what+" "+nm.Name)
+				names = append(names, nm.Name)
+				text[nm.Name] = src(vs.Values[i])
+			}
+		}
+		return false
+	})
+	return
+}
+
+// funcLit returns the function literal assigned to name inside body.
+func funcLit(body ast.Node, name string) *ast.FuncLit {
+	var out *ast.FuncLit
+	ast.Inspect(body, func(n ast.Node) bool {
+		if as, ok := n.(*ast.AssignStmt); ok && len(as.Lhs) == 1 && len(as.Rhs) == 1 && isIdent(as.Lhs[0], name) {
+			if fl, ok := as.Rhs[0].(*ast.FuncLit); ok {
+				out = fl
+			}
+		}
+		return out == nil
+	})
+	if out == nil {
+		die("function literal %s not found", name)
+	}
+	return out
+}
+
+func distFacts(repo string) {
+	nf := parseFile(repo, "internal/stats/normaldist.go")
+	bf := parseFile(repo, "internal/stats/beta.go")
+	sf := parseFile(repo, "internal/stats/sample.go")
+	df := parseFile(repo, "internal/stats/dist.go")
+	af := parseFile(repo, "internal/stats/alg.go")
+	inv := methodDecl(nf, "NormalDist", "InvCDF")
+	bcf := funcDecl(bf, "betacf")
+	pct := methodDecl(sf, "Sample", "Percentile")
+	iqr := methodDecl(sf, "Sample", "IQR")
+	ginv := funcDecl(df, "InvCDF")
+	bis := funcDecl(af, "bisectBool")
+	has := func(sub string) func(string) bool { return func(c string) bool { return strings.Contains(c, sub) } }
+
+	header("DistFacts", "internal/stats/normaldist.go", "internal/stats/beta.go", "internal/stats/sample.go", "internal/stats/dist.go", "internal/stats/alg.go")
+	pf("/-- every constant is an exact fraction (negative, numerator, denominator) of the Go constant expression -/\ndef conventions : Unit := ()\n")
+
+	// ---- NormalDist.InvCDF
+	env := map[string]*big.Rat{}
+	names, text := localConsts(inv.Body, env, "NormalDist.InvCDF")
+	var cn, cv, ct []string
+	for _, nm := range names {
+		cn = append(cn, nm)
+		cv = append(cv, leanRat(env[nm]))
+		ct = append(ct, text[nm])
+	}
+	pf("def invNames : List String := %s\ndef invText : List String := %s\n", leanStrList(cn), leanStrList(ct))
+	pf("def invConsts : List (Bool × Nat × Nat) := %s\n", joinS(cv))
+	icodes := map[string]int{"p": 0, "plow": 1, "phigh": 2}
+	pf("/-- operand codes of the InvCDF conditions: %s -/\ndef invCodes : Unit := ()\n", codeDoc(icodes))
+	rng := mustIf(inv.Body, "InvCDF range", has("p < 0"))
+	emitCond("invRangeCond", "p outside [0,1]: NaN", rng.Cond, icodes)
+	z, ok := rng.Else.(*ast.IfStmt)
+	if !ok {
+		die("InvCDF: else-if chain")
+	}
+	emitCond("invZeroCond", "-Inf", z.Cond, icodes)
+	o, ok := z.Else.(*ast.IfStmt)
+	if !ok {
+		die("InvCDF: else-if chain")
+	}
+	emitCond("invOneCond", "+Inf", o.Cond, icodes)
+	low := mustIf(inv.Body, "InvCDF lower region", has("plow"))
+	emitCond("invLowCond", "lower region", low.Cond, icodes)
+	up, ok := low.Else.(*ast.IfStmt)
+	if !ok {
+		die("InvCDF: region chain")
+	}
+	emitCond("invHighCond", "upper region", up.Cond, icodes)
+	// q := p - 0.5 ; math.Sqrt(-2 * math.Log(p))
+	var centre, logFactor []string
+	ast.Inspect(inv.Body, func(n ast.Node) bool {
+		if as, ok := n.(*ast.AssignStmt); ok && len(as.Lhs) == 1 && isIdent(as.Lhs[0], "q") && as.Tok == token.DEFINE {
+			r := unparen(as.Rhs[0])
+			if be, ok := r.(*ast.BinaryExpr); ok && be.Op == token.SUB && isIdent(be.X, "p") {
+				centre = append(centre, leanRat(ratOf(be.Y, env, "InvCDF centre")))
+			}
+			if fun, args, ok := callOf(r); ok && fun == "math.Sqrt" && len(args) == 1 {
+				if be, ok := unparen(args[0]).(*ast.BinaryExpr); ok && be.Op == token.MUL {
+					logFactor = append(logFactor, leanRat(ratOf(be.X, env, "InvCDF log factor")))
+				}
+			}
+		}
+		return true
+	})
+	if len(centre) != 1 || len(logFactor) != 2 {
+		die("InvCDF: q assignments not recognised")
+	}
+	pf("/-- `q := p - c` (central region) and `math.Sqrt(f * math.Log(…))` (lower, upper region) -/\n")
+	pf("def invCentre : Bool × Nat × Nat := %s\ndef invLogFactor : List (Bool × Nat × Nat) := %s\n", centre[0], joinS(logFactor))
+	var polys []string
+	ast.Inspect(inv.Body, func(n ast.Node) bool {
+		if as, ok := n.(*ast.AssignStmt); ok && len(as.Lhs) == 1 && isIdent(as.Lhs[0], "x") && as.Tok == token.ASSIGN {
+			polys = append(polys, strings.Join(strings.Fields(src(as.Rhs[0])), ""))
+		}
+		return true
+	})
+	pf("/-- right-hand sides of the assignments to x, white space removed -/\ndef invFormulas : List String := %s\n", leanStrList(polys))
+
+	// ---- betacf
+	benv := map[string]*big.Rat{}
+	bnames, _ := localConsts(bcf.Body, benv, "betacf")
+	if len(bnames) != 2 || benv["maxIterations"] == nil || benv["epsilon"] == nil || !benv["maxIterations"].IsInt() {
+		die("betacf: constants %v", bnames)
+	}
+	pf("def betaMaxIterations : Nat := %s\ndef betaEpsilon : Bool × Nat × Nat := %s\n", benv["maxIterations"].Num().String(), leanRat(benv["epsilon"]))
+	rz := funcLit(bcf.Body, "raiseZero")
+	rzIf := mustIf(rz.Body, "raiseZero", has("math.Abs"))
+	bcodes := map[string]int{"math.Abs(z)": 0, "math.SmallestNonzeroFloat64": 1, "m": 2, "maxIterations": 3, "math.Abs(hfac - 1)": 4, "epsilon": 5}
+	pf("/-- operand codes of the betacf conditions: %s -/\ndef betaCodes : Unit := ()\n", codeDoc(bcodes))
+	emitCond("betaTinyCond", "raiseZero replaces z", rzIf.Cond, bcodes)
+	rr, ok := rzIf.Body.List[0].(*ast.ReturnStmt)
+	if !ok {
+		die("raiseZero: return")
+	}
+	pf("def betaTinyValue : String := %s\n", leanStr(src(rr.Results[0])))
+	var loop *ast.ForStmt
+	for _, st := range bcf.Body.List {
+		if x, ok := st.(*ast.ForStmt); ok {
+			loop = x
+		}
+	}
+	if loop == nil {
+		die("betacf: loop not found")
+	}
+	li, ok := loop.Init.(*ast.AssignStmt)
+	if !ok || !isIdent(li.Lhs[0], "m") || src(loop.Post) != "m++" {
+		die("betacf: loop header")
+	}
+	pf("def betaLoopStart : Nat := %s\n", mustNum(li.Rhs[0], "betacf loop start").natVal("start"))
+	emitCond("betaLoopCond", "loop continues", loop.Cond, bcodes)
+	emitCond("betaConvergedCond", "converged", mustIf(loop.Body, "betacf convergence", has("epsilon")).Cond, bcodes)
+
+	// ---- Sample.Percentile / IQR
+	pcodes := map[string]int{"pctile": 0, "k": 1, "len(s.Xs)": 2}
+	pf("/-- operand codes of the Percentile conditions: %s -/\ndef pctCodes : Unit := ()\n", codeDoc(pcodes))
+	emitCond("pctLowCond", "percentile capped to the minimum", mustIf(pct.Body, "Percentile low", has("pctile <=")).Cond, pcodes)
+	emitCond("pctHighCond", "percentile capped to the maximum", mustIf(pct.Body, "Percentile high", has("pctile >=")).Cond, pcodes)
+	emitCond("pctFirstCond", "first element", mustIf(pct.Body, "Percentile first", has("k <=")).Cond, pcodes)
+	emitCond("pctLastCond", "last element", mustIf(pct.Body, "Percentile last", has("k >=")).Cond, pcodes)
+	var r8 []string
+	r8Text := ""
+	ast.Inspect(pct.Body, func(n ast.Node) bool {
+		if as, ok := n.(*ast.AssignStmt); ok && len(as.Lhs) == 1 && isIdent(as.Lhs[0], "n") && as.Tok == token.DEFINE {
+			// n := A + pctile*(N+B)
+			r8Text = strings.Join(strings.Fields(src(as.Rhs[0])), "")
+			if be, ok := unparen(as.Rhs[0]).(*ast.BinaryExpr); ok && be.Op == token.ADD {
+				r8 = append(r8, leanRat(ratOf(be.X, nil, "Percentile R8")))
+				if m, ok := unparen(be.Y).(*ast.BinaryExpr); ok && m.Op == token.MUL && isIdent(m.X, "pctile") {
+					if a, ok := unparen(m.Y).(*ast.BinaryExpr); ok && a.Op == token.ADD && isIdent(a.X, "N") {
+						r8 = append(r8, leanRat(ratOf(a.Y, nil, "Percentile R8")))
+					}
+				}
+			}
+		}
+		return true
+	})
+	if len(r8) != 2 {
+		die("Percentile: R8 position formula not recognised")
+	}
+	pf("/-- `n := A + pctile*(N+B)`: [A, B]; source `%s` -/\ndef pctR8 : List (Bool × Nat × Nat) := %s\n", r8Text, joinS(r8))
+	var iq []string
+	ast.Inspect(iqr.Body, func(n ast.Node) bool {
+		if fun, args, ok := callOfNode(n); ok && fun == "s.Percentile" && len(args) == 1 {
+			iq = append(iq, leanRat(ratOf(args[0], nil, "IQR")))
+		}
+		return true
+	})
+	pf("/-- IQR = Percentile(first) - Percentile(second) -/\ndef iqrPercentiles : List (Bool × Nat × Nat) := %s\n", joinS(iq))
+
+	// ---- generic InvCDF (dist.go) and bisectBool (alg.go)
+	genv := map[string]*big.Rat{}
+	gnames, _ := localConsts(ginv.Body, genv, "InvCDF")
+	if genv["xtol"] == nil {
+		die("InvCDF: xtol not found (%v)", gnames)
+	}
+	pf("def genXtol : Bool × Nat × Nat := %s\n", leanRat(genv["xtol"]))
+	if genv["almostInf"] != nil {
+		pf("def genAlmostInf : Bool × Nat × Nat := %s\n", leanRat(genv["almostInf"]))
+	}
+	var xdelta0 *big.Rat
+	var growth []string
+	ast.Inspect(ginv.Body, func(n ast.Node) bool {
+		if as, ok := n.(*ast.AssignStmt); ok && len(as.Lhs) == 1 && isIdent(as.Lhs[0], "xdelta") {
+			if as.Tok == token.DEFINE {
+				xdelta0 = ratOf(as.Rhs[0], genv, "xdelta")
+			} else if as.Tok == token.MUL_ASSIGN {
+				growth = append(growth, leanRat(ratOf(as.Rhs[0], genv, "xdelta growth")))
+			} else {
+				die("InvCDF: xdelta %s", src(as))
+			}
+		}
+		return true
+	})
+	if xdelta0 == nil || len(growth) != 2 {
+		die("InvCDF: xdelta not recognised")
+	}
+	pf("def genXdeltaStart : Bool × Nat × Nat := %s\ndef genXdeltaGrowth : List (Bool × Nat × Nat) := %s\n", leanRat(xdelta0), joinS(growth))
+	gcodes := map[string]int{"y": 0, "y1": 1, "hiY": 2, "loY": 3, "dist.CDF(x)": 4, "dist.CDF(l)": 5, "dist.CDF(h)": 6}
+	pf("/-- operand codes of the generic InvCDF conditions: %s; `hiX != inf` / `loX != -inf` are not encoded -/\ndef genCodes : Unit := ()\n", codeDoc(gcodes))
+	emitCond("genRangeCond", "y outside [0,1]: NaN", mustIf(ginv.Body, "InvCDF range", has("y < 0")).Cond, gcodes)
+	emitCond("genDirectionCond", "search upwards", mustIf(ginv.Body, "InvCDF direction", has("y1 < y")).Cond, gcodes)
+	var loops []*ast.ForStmt
+	ast.Inspect(ginv.Body, func(n ast.Node) bool {
+		if x, ok := n.(*ast.ForStmt); ok {
+			loops = append(loops, x)
+		}
+		return true
+	})
+	if len(loops) != 2 {
+		die("InvCDF: %d loops", len(loops))
+	}
+	for i, nm := range []string{"genUpCond", "genDownCond"} {
+		be, ok := loops[i].Cond.(*ast.BinaryExpr)
+		if !ok || be.Op != token.LAND {
+			die("InvCDF: loop condition %s", src(loops[i].Cond))
+		}
+		emitCond(nm, "bracketing loop continues (first conjunct; the second is `"+src(be.Y)+"`)", be.X, gcodes)
+	}
+	var pred *ast.FuncLit
+	ast.Inspect(ginv.Body, func(n ast.Node) bool {
+		if fun, args, ok := callOfNode(n); ok && fun == "bisectBool" && len(args) == 4 {
+			pred, _ = args[0].(*ast.FuncLit)
+			if src(args[3]) != "xtol" {
+				die("InvCDF: bisectBool tolerance %s", src(args[3]))
+			}
+		}
+		return true
+	})
+	if pred == nil {
+		die("InvCDF: bisectBool call not found")
+	}
+	emitCond("genPredicate", "the bisected predicate", pred.Body.List[0].(*ast.ReturnStmt).Results[0], gcodes)
+	acodes := map[string]int{"high - low": 0, "xtol": 1, "mid": 2, "high": 3, "low": 4, "flow": 5, "fhigh": 6, "fmid": 7}
+	pf("/-- operand codes of the bisectBool conditions: %s -/\ndef bisectCodes : Unit := ()\n", codeDoc(acodes))
+	emitCond("bisectPanicCond", "root not bracketed", mustIf(bis.Body, "bisectBool panic", has("flow == fhigh")).Cond, acodes)
+	emitCond("bisectDoneCond", "interval small enough", mustIf(bis.Body, "bisectBool done", has("xtol")).Cond, acodes)
+	emitCond("bisectStuckCond", "midpoint not representable", mustIf(bis.Body, "bisectBool stuck", has("mid ==")).Cond, acodes)
+	emitCond("bisectLowCond", "move the lower end", mustIf(bis.Body, "bisectBool low", has("fmid ==")).Cond, acodes)
+	var midDiv *big.Rat
+	ast.Inspect(bis.Body, func(n ast.Node) bool {
+		if as, ok := n.(*ast.AssignStmt); ok && len(as.Lhs) == 1 && isIdent(as.Lhs[0], "mid") {
+			if be, ok := unparen(as.Rhs[0]).(*ast.BinaryExpr); ok && be.Op == token.QUO {
+				midDiv = ratOf(be.Y, nil, "bisectBool midpoint")
+			}
+		}
+		return true
+	})
+	if midDiv == nil {
+		die("bisectBool: midpoint not recognised")
+	}
+	pf("def bisectMidDivisor : Bool × Nat × Nat := %s\n", leanRat(midDiv))
+	footer("DistFacts", inv, bcf, pct, iqr, ginv, bis)
+}
+
 func main() {
 	if len(os.Args) != 3 {
 		fmt.Fprintln(os.Stderr, "usage: extract <FactsName> <repo>")
@@ -779,6 +1968,14 @@ func main() {
 		scaleFacts(os.Args[2])
 	case "TidyFacts":
 		tidyFacts(os.Args[2])
+	case "UTestFacts":
+		utestFacts(os.Args[2])
+	case "LegacyFacts":
+		legacyFacts(os.Args[2])
+	case "NothingFacts":
+		nothingFacts(os.Args[2])
+	case "DistFacts":
+		distFacts(os.Args[2])
 	default:
 		fmt.Fprintln(os.Stderr, "unknown facts", os.Args[1])
 		os.Exit(2)
